@@ -546,6 +546,19 @@ def rule_cleanup_keeps_registry(repo: Repo, rep, rule: str = "R11.5") -> None:
                 (writes if mode and mode[0] in "wa" else reads).append(n)
             if attr == "emit" and any(k.arg == "client_package_name" for k in c.keywords):
                 emits.append(n)
+            # a helper of the class that reads / writes the path it is handed (`self._read_embedded_registry(registry_path, ...)`)
+            gcls = gen.module.classes.get(gen.qualname.split(".")[0]) if "." in gen.qualname else None
+            hf = gcls.methods.get(attr) if gcls is not None and attr else None
+            if hf is not None and hf is not gen:
+                hparams = [p_ for p_ in hf.params if p_ not in ("self", "cls")]
+                for i_, a_ in enumerate(c.args):
+                    if i_ < len(hparams) and mentions_registry(a_):
+                        for hc in calls_in(hf.node):
+                            if isinstance(hc.func, ast.Attribute) and isinstance(hc.func.value, ast.Name) and hc.func.value.id == hparams[i_]:
+                                if hc.func.attr in ("read_bytes", "read_text"):
+                                    reads.append(n)
+                                if hc.func.attr in ("write_bytes", "write_text"):
+                                    writes.append(n)
     rep.count(f"{rule}:rmtree_sites", len(rm))
     rep.require(bool(emits), f"{rule}: the ExceptionsEmitter.emit call (client_package_name=...) was not found in generate (anchor)")
     n_armed = 0
